@@ -189,6 +189,8 @@ def settings_ctx(case):
         st.enter_context(S.max_cholesky_size(int(case.get("mcs", 800))))
         st.enter_context(S.max_root_decomposition_size(int(case.get("mrs", 100))))
         st.enter_context(S.fast_computations(covar_root_decomposition=bool(case.get("fast", True))))
+        if case.get("cj") is not None:
+            st.enter_context(S.cholesky_jitter(double_value=float(case["cj"])))
         yield
 
 
@@ -199,9 +201,12 @@ def call_op(op, name, method=None, upper=False):
     if name == "t_cholesky":
         return {"L": torch.linalg.cholesky(op, upper=upper)}
     if name == "root":
-        return {"R": op.root_decomposition(method=method).root}
+        # no keyword when the default is wanted (as a user writes it, and as the library's internal calls do): the memoize
+        # key includes the kwargs, and caches pre-filled with add_to_cache (cat_rows, add_low_rank, the Lanczos inverse
+        # root) are only hit by the keyword-free call
+        return {"R": (op.root_decomposition(method=method) if method is not None else op.root_decomposition()).root}
     if name == "root_inv":
-        return {"R": op.root_inv_decomposition(method=method).root}
+        return {"R": (op.root_inv_decomposition(method=method) if method is not None else op.root_inv_decomposition()).root}
     if name == "eigh":
         w, q = op.eigh()
         return {"w": w, "Q": q}
@@ -239,13 +244,69 @@ def exc_kind(ex):
     return type(ex).__name__
 
 
+def const_diag_expr(batch, n, c):
+    return {"cls": "ConstantDiag", "c": tolist(torch.full((*batch, 1), float(c), dtype=F64)), "n": int(n)}
+
+
+def jitter_expr(expr, c, op, target):
+    """the opbuild expression of target = op.add_jitter(c), read off the composite the library built: an
+    AddedDiag / KroneckerProductAddedDiag composite keeps `op` (or, when `op` is such a composite itself, op's inner
+    operator) as its inner operator OBJECT — that sharing is what a history case exercises; any other result (e.g. a new
+    Toeplitz operator) is an operator of its own and is modelled through its dense matrix.  The dense oracle of the
+    composite is opbuild.dense(expr) + c I whatever the library did."""
+    from linear_operator.operators import ConstantDiagLinearOperator
+    A = opbuild.dense(expr, F64)
+    n = A.shape[-1]
+    want = A + float(c) * torch.eye(n, dtype=F64)
+    name = type(target).__name__
+    out = None
+    if name in ("AddedDiagLinearOperator", "KroneckerProductAddedDiagLinearOperator"):
+        inner, diag = target._linear_op, target._diag_tensor
+        inner_expr = None
+        if inner is op:
+            inner_expr = expr
+        elif expr["cls"] in ("AddedDiag", "KronAddedDiag") and inner is getattr(op, "_linear_op", None):
+            inner_expr = expr["base" if expr["cls"] == "AddedDiag" else "kron"]
+        if inner_expr is not None:
+            if isinstance(diag, ConstantDiagLinearOperator):
+                d_expr = {"cls": "ConstantDiag", "c": tolist(diag.diag_values), "n": int(diag.shape[-1])}
+            else:
+                d_expr = {"cls": "Diag", "d": tolist(diag._diag)}
+            if name.startswith("AddedDiag"):
+                out = {"cls": "AddedDiag", "base": inner_expr, "diag": d_expr}
+            else:
+                out = {"cls": "KronAddedDiag", "kron": inner_expr, "diag": d_expr}
+            if not torch.allclose(opbuild.dense(out, F64), want, rtol=1e-13, atol=1e-13):
+                out = None
+    return out if out is not None else {"cls": "Dense", "t": tolist(want)}
+
+
+def catrows_dense(case):
+    """C = [[A, B^T], [B, D]] for a cat_rows case (A = dense matrix of the operator expression)"""
+    A = opbuild.dense(case["expr"], F64)
+    B, D = totensor(case["B"]), totensor(case["D"])
+    return torch.cat([torch.cat([A, B.mT], dim=-1), torch.cat([B, D], dim=-1)], dim=-2)
+
+
+def resolve(op, target):
+    if target == "self":
+        return op
+    if target.startswith("jitter:"):
+        return op.add_jitter(float(target[7:]))
+    raise ValueError(target)
+
+
 def run_case(case, seed_noise=0):
-    """-> dict(kind, exc, msg, out{name: tensor dict}, cls{name: class name}, events, chosen, eigh[(A,w,Q)], lanczos[...])"""
+    """-> dict(kind, exc, msg, out{name: tensor dict}, cls{name: class name}, events, chosen, eigh[(A,w,Q)], lanczos[...],
+            eff_expr = the opbuild expression of the operator the observed query ran on)
+    case kinds: plain (default) | hist (a history of queries on the operator and on op.add_jitter(c) composites that SHARE
+    it; the last step is observed) | catrows (op.cat_rows(B, D), then the query on the concatenated operator)"""
     L = lib()
     torch.manual_seed(seed_noise)
+    kind = case.get("kind", "plain")
     op = opbuild.build(case["expr"], F64)
     res = {"kind": "ok", "exc": None, "msg": None, "out": {}, "cls": {}, "events": [], "chosen": [], "eigh": [], "lzd": [], "lzr": [], "piv": [],
-           "pinv": []}
+           "pinv": [], "eff_expr": case["expr"]}
     with settings_ctx(case):
         for nm in case.get("inject", []):
             L["memoize"].add_to_cache(op, nm, None)
@@ -253,14 +314,27 @@ def run_case(case, seed_noise=0):
         # operator's memoize cache and is re-used by the observed call, so the solver events / oracle answers of the whole
         # history are what the model (which computes everything afresh) is compared with
         with Recorder() as rec:
+            mark = None
+            target = op
             try:
                 for pre in case.get("pre", []):
                     call_op(op, pre["op"], pre.get("method"), pre.get("upper", False))
+                if kind == "hist":
+                    for tgt, o, m, u in case["steps"]:
+                        call_op(resolve(op, tgt), o, m, u)
+                    target = resolve(op, case["target"])
+                    if case["target"] != "self":
+                        res["eff_expr"] = jitter_expr(case["expr"], float(case["target"][7:]), op, target)
+                    mark = len(rec.events)
+                elif kind == "catrows":
+                    target = op.cat_rows(totensor(case["B"]), totensor(case["D"]))
+                    res["eff_expr"] = {"cls": "Dense", "t": tolist(catrows_dense(case))}
+                    mark = len(rec.events)
             except Exception as ex:  # noqa
                 res.update(kind="raise", exc="pre:" + exc_kind(ex), msg=repr(ex)[:300])
             if res["kind"] == "ok":
                 try:
-                    out = call_op(op, case["op"], case.get("method"), case.get("upper", False))
+                    out = call_op(target, case["op"], case.get("method"), case.get("upper", False))
                     for k, v in out.items():
                         if v is None:
                             res["out"][k] = None
@@ -270,7 +344,8 @@ def run_case(case, seed_noise=0):
                             res["out"][k] = tolist(densify(v))
                 except Exception as ex:  # noqa
                     res.update(kind="raise", exc=exc_kind(ex), msg=repr(ex)[:300])
-        res["events"] = sorted(set(rec.events))
+        # history / cat_rows cases: only the primitives of the OBSERVED call (earlier results may be served from caches)
+        res["events"] = sorted(set(rec.events if mark is None else rec.events[mark:]))
         res["chosen"] = rec.chosen
         res["eigh"], res["lzd"], res["lzr"], res["piv"], res["pinv"] = rec.eigh, rec.lzd, rec.lzr, rec.piv, rec.pinv
     return res
@@ -295,7 +370,7 @@ def predicate(case, res, tol_direct=1e-8, tol_krylov=2e-4):
     rank bound reaches n: tolerance tol_krylov then, no residual check otherwise (rank-deficient by design)."""
     if res["kind"] != "ok":
         return None
-    A = opbuild.dense(case["expr"], F64)
+    A = opbuild.dense(res.get("eff_expr", case["expr"]), F64)
     n = A.shape[-1]
     scale = max(1.0, maxabs(A))
     krylov = any(e[0] == "lanczos" for e in res["events"]) or case.get("method") in ("lanczos", "pivoted_cholesky")
